@@ -13,7 +13,8 @@ let take_slugs (a : string list) : (M.byte list -> M.byte list) * string list =
     let rest = go n rest in
     ((fun hdr -> match Hashtbl.find_opt tbl (hex_of_bytes hdr) with
         | Some s -> bytes_of_hex s
-        | None -> failwith "slug oracle: unknown header"), rest)
+        | None -> []  (* no oracle entry (the implementation panicked before answering): any value will do,
+                         a wrong one shows up as a byte mismatch *)), rest)
   | [] -> failwith "slug table missing"
 
 let () =
